@@ -67,3 +67,8 @@ Definition spec_decode (s : list Z) : list Z :=
   let '(body, _) := strip_pad s in
   let bits := flat_map (fun c => match sextet_of c with Some v => bits6 v | None => [] end) body in
   take_octets (length bits) bits.
+
+(* the inverse table the decoder needs: sextet value, 64 for '=', 65 for anything else *)
+Definition spec_inv : list Z :=
+  map (fun c => match sextet_of c with Some v => v | None => if c =? spec_pad then 64 else 65 end)
+      (map Z.of_nat (seq 0 256)).
